@@ -158,6 +158,29 @@ def items(tier):
             for pair in (["f3" * 20, "a1" * 20], ["a1" * 20, "f3" * 20], ["c0" * 20, "f2" * 20], ["a1" * 20, "ee" * 20]):
                 out.append({"case": {"g": g, "kinds": kinds, "pars": [False] * n, "jobs": 1, "git": True, "history": "merge",
                                      "cached": {str(e): pair for e in exps}, "empty_index": True}, "bound": 0})
+    # 4-task graphs with a group somewhere below the root (a task whose only dependencies are groups has no COND_DEPS), and mixed
+    # parallelizable flags (the launch order differs from the listing order)
+    for g in rungrid.graphs_upto((4,)):
+        for gi in (1, 2, 3):
+            kinds = ["cmd"] * 4
+            kinds[gi] = "group"
+            out.append({"case": {"g": g, "kinds": kinds, "pars": [False] * 4, "jobs": 1}, "bound": 0})
+    for g in rungrid.graphs_upto((3, 4)):
+        n = len(g)
+        if n == 4 and tier == "quick" and sum(len(d) for d in g) > 4:
+            continue
+        for pars in itertools.product((False, True), repeat=n):
+            if not any(pars) or all(pars):
+                continue
+            for jobs in (1, 2):
+                out.append({"case": {"g": g, "kinds": ["cmd"] * n, "pars": list(pars), "jobs": jobs, "force_j": True}, "bound": 0})
+    # dependencies that write nothing into their output directory (a compile step working in the source tree): still listed
+    for g in rungrid.graphs_upto((2, 3)):
+        n = len(g)
+        for kinds in (["cmd"] * n, ["cmd"] + ["exp"] * (n - 1)):
+            for q in range(1, n):
+                out.append({"case": {"g": g, "kinds": kinds, "pars": [False] * n, "jobs": 1, "quiet": [q]}, "bound": 0})
+            out.append({"case": {"g": g, "kinds": kinds, "pars": [False] * n, "jobs": 1, "quiet": list(range(1, n))}, "bound": 0})
     # cond started with COND_* already in its environment (nested invocation): tasks must see their own values
     for g in rungrid.graphs_upto((1, 2, 3)):
         n = len(g)
